@@ -362,7 +362,7 @@ def generate(rng):
             c["drop_each"] = 1
         c["deliveries"] = [[gen_fault(rng, pool, probes) for _ in range(rng.choice([1, 1, 2, 3, 4]))] for _ in range(rng.choice([1, 2, 4]))]
         cmds.insert(pos, c)
-    return {"prop": ID, "cfg": {"prune": False, "cache": 4096, "foreign": foreign}, "cmds": cmds}
+    return {"prop": ID, "cfg": {"prune": False, "cache": 4096, "foreign": foreign, "store": rng.choice(["min", "min", "dict"])}, "cmds": cmds}
 
 
 def explore(rng, st):
